@@ -19,6 +19,7 @@ WORLDS = {
     "C15": "worlds.c15",
     "C06": "worlds.c06",
     "C04": "worlds.c04",
+    "C05": "worlds.c05",
 }
 
 # per-property tier sizes: (runs, wall budget seconds, per-run timeout)
